@@ -7,7 +7,8 @@ import MdsVerif.Drv.C05
 recent first; `lastPos log x` is the index in the most recent callback for `x`.
 
 `C06_positions`: for **every configuration** of the index arithmetic with `parent i < i` (i > 0) and
-`left i > i` that does not sift up in `pop` (`Proofs.Heapq.CfgSafe`; in particular the pinned one regenerated from heapq.go,
+`left i > i` (`Proofs.Heapq.CfgOK` — nothing is assumed about `right`, `heapifyStart`, `popSiftsUp`;
+in particular the pinned one regenerated from heapq.go,
 `C06_current`), every comparison function (no order axioms are needed), and every history of
 `Add / Pop / Remove i / Set / Reorder / Clear / NewWithData` (and the observers) over pairwise
 distinct elements, after every operation each held element that entered through `Add` or `Set`
@@ -60,27 +61,25 @@ instance (s : S α) (op : Op α) : Decidable (distinctOp s op) := by
   cases op <;> simp only [distinctOp] <;> infer_instance
 
 section
-variable {cfg : Cfg} (hc : CfgSafe cfg) (lt : α → α → Bool)
+variable {cfg : Cfg} (hc : CfgOK cfg) (lt : α → α → Bool)
 include hc
 
 /-- one operation keeps the invariant -/
 theorem step_posOK (s : S α) (T : α → Prop) (op : Op α) (hd : distinctOp s op) (hv : PosOK T s.h) :
     PosOK (tracked T op) (step cfg lt s op).1.h := by
-  have hs : ∀ i, cfg.popSiftsUp = true → i + 1 < s.h.len := fun i e => by
-    rw [hc.noSiftUp] at e; exact absurd e (by decide)
   rw [posOK_iff] at hv ⊢
   cases op with
-  | add v => exact (add_inv hc.toCfgOK _ T s.h v hv hd).1
+  | add v => exact (add_inv hc _ T s.h v hv hd).1
   | pop =>
     simp only [step]
     split
     · exact hv
-    · exact pop_inv hc.toCfgOK _ _ s.h 0 (by omega) (hs 0) hv
+    · exact pop_inv hc _ _ s.h 0 (by omega) hv
   | remove i =>
     simp only [step]
     split
     · exact hv
-    · exact pop_inv hc.toCfgOK _ _ s.h i (by omega) (hs i) hv
+    · exact pop_inv hc _ _ s.h i (by omega) hv
   | set vs => exact (set_inv hc.left_gt _ s.h vs hd).weaken (fun _ _ _ => trivial)
   | reorder rev => exact reorder_inv hc.left_gt _ _ _ hv
   | clear => exact ⟨List.nodup_nil, fun k hk => by simp [step, clear, H.len] at hk⟩
@@ -95,7 +94,7 @@ theorem step_posOK (s : S α) (T : α → Prop) (op : Op α) (hd : distinctOp s 
 theorem C06_add_returns (s : S α) (T : α → Prop) (v : α) (hv : PosOK T s.h) (hd : v ∉ s.h.data) :
     ∃ i, (step cfg lt s (.add v)).2 = .idx i ∧ (step cfg lt s (.add v)).1.h.data[i]? = some v := by
   rw [posOK_iff] at hv
-  obtain ⟨_, h2, h3⟩ := add_inv hc.toCfgOK (s.lt lt) T s.h v hv hd
+  obtain ⟨_, h2, h3⟩ := add_inv hc (s.lt lt) T s.h v hv hd
   refine ⟨(add cfg (s.lt lt) s.h v).2, rfl, ?_⟩
   rw [get_eq _ _ h2] at h3
   simp only [step]
@@ -109,8 +108,7 @@ theorem C06_remove_reported (s : S α) (T : α → Prop) (x : α) (hv : PosOK T 
   obtain ⟨p, hp, rfl⟩ := List.getElem_of_mem hx
   refine ⟨p, hv.2 p hp ht, by simp [peek, hp], ?_⟩
   have hp' : p < s.h.len := hp
-  have hperm := pop_perm hc.toCfgOK (s.lt lt) s.h p hp' (fun e => by
-    rw [hc.noSiftUp] at e; exact absurd e (by decide))
+  have hperm := pop_perm hc (s.lt lt) s.h p hp'
   have hout := pop_out cfg (s.lt lt) s.h p
   rw [get_eq _ _ hp'] at hout
   simp only [step, if_neg (Nat.not_le.mpr hp')]
@@ -156,10 +154,9 @@ end
 /-! ### the current source -/
 
 /-- the configuration regenerated from heapq.go is in the class (F1's `i / 2` is still `< i`) -/
-theorem C06_current : CfgSafe Drv.C05.cfg where
+theorem C06_current : CfgOK Drv.C05.cfg where
   parent_lt := fun i hi => by simp only [Drv.C05.cfg, Gen.Heapq.parentIdx]; omega
   left_gt := fun i => by simp only [Drv.C05.cfg, Gen.Heapq.leftIdx]; omega
-  noSiftUp := rfl
 
 /-- **C06 for the code as it is** (with the driver's comparison, or any other) -/
 theorem C06_positions_current (lt : Nat → Nat → Bool) (ops : List (Op Nat))
